@@ -309,38 +309,61 @@ def run(ctx):
                     "given": [(t, tuple(a), tuple(b)) for t, a, b in stp.get("pairs", [])]} for stp in cj["steps"]]
         plans.append(p)
     ctx.cov["corpus_plans"] = len(plans)
-    for var in ("w", "s"):
-        for k in range(LO, HI + 1):
-            p = Plan(f"fresh:{var}={k}", True)
-            ew, es = (k, None) if var == "w" else (None, k)
-            p.steps = [{"ew": ew, "es": es, "path": "df", "max_singles": 3 if quick else 8}]
-            if k % 2 == 0 or not quick:
-                p.steps.append({"ew": ew, "es": es, "path": "csv", "max_singles": 1 if quick else 4})
-            plans.append(p)
-    p = Plan("fresh:unset", True)
-    p.steps = [{"ew": None, "es": None, "path": "df"}, {"ew": None, "es": None, "path": "csv"}]
-    plans.append(p)
     joint = set()
     n_joint = 6 if quick else 600
     while len(joint) < n_joint:
         joint.add((rng.randint(LO, HI), rng.randint(LO, HI)))
     for cw, cs in [(6, 6), (38, 15), (-1, -1), (15, 15), (14, 15), (6, 10), (10, 10), (39, 6), (38, 16), (5, 5)]:
         joint.add((cw, cs))
-    for (jw, js) in sorted(joint):
-        p = Plan(f"fresh:w={jw},s={js}", True)
-        p.steps = [{"ew": jw, "es": js, "path": rng.choice(("df", "csv")), "max_singles": 2 if quick else 6}]
+    p = Plan("fresh:unset", True)
+    p.steps = [{"ew": None, "es": None, "path": "df"}, {"ew": None, "es": None, "path": "csv"}]
+    plans.append(p)
+    if quick:
+        # quick: every setting -5..45 of each variable still goes through run(), but several settings share one worker process
+        # (16 processes, each setting followed by a run with the variables unset, which is where stickiness would show);
+        # a fresh process of its own only for a few boundary settings.  thorough: a fresh process for every setting as well.
+        for var, ks in (("w", (-1, 5, 6, 10, 38, 39, 45)), ("s", (-1, 5, 6, 15, 16))):
+            for k in ks:
+                p = Plan(f"fresh:{var}={k}", True)
+                ew, es = (k, None) if var == "w" else (None, k)
+                p.steps = [{"ew": ew, "es": es, "path": "df", "max_singles": 3}, {"ew": ew, "es": es, "path": "csv", "max_singles": 1}]
+                plans.append(p)
+        for var in ("w", "s"):
+            ks = list(range(LO, HI + 1))
+            rng.shuffle(ks)
+            n_chunks = 8
+            for ci_ in range(n_chunks):
+                p = Plan(f"sequence:{var}:chunk{ci_}", False)
+                for k in ks[ci_::n_chunks]:
+                    ew, es = (k, None) if var == "w" else (None, k)
+                    p.steps.append({"ew": ew, "es": es, "path": "df" if k % 2 else "csv", "rich": True, "max_singles": 2})
+                    p.steps.append({"ew": None, "es": None, "path": "df", "max_singles": 0})
+                plans.append(p)
+        p = Plan("sequence:joint", False)
+        for (jw, js) in sorted(joint):
+            p.steps.append({"ew": jw, "es": js, "path": rng.choice(("df", "csv")), "max_singles": 1})
         plans.append(p)
-    # sequences within one process
-    for var in ("w", "s"):
-        p = Plan(f"sequence:{var}", False)
-        for k in range(LO, HI + 1):
-            ew, es = (k, None) if var == "w" else (None, k)
-            p.steps.append({"ew": ew, "es": es, "path": "df", "max_singles": 1 if quick else 3})
-            p.steps.append({"ew": None, "es": None, "path": "df", "max_singles": 0 if quick else 1})
-        plans.append(p)
+    else:
+        for var in ("w", "s"):
+            for k in range(LO, HI + 1):
+                p = Plan(f"fresh:{var}={k}", True)
+                ew, es = (k, None) if var == "w" else (None, k)
+                p.steps = [{"ew": ew, "es": es, "path": "df", "max_singles": 8}, {"ew": ew, "es": es, "path": "csv", "max_singles": 4}]
+                plans.append(p)
+        for (jw, js) in sorted(joint):
+            p = Plan(f"fresh:w={jw},s={js}", True)
+            p.steps = [{"ew": jw, "es": js, "path": rng.choice(("df", "csv")), "max_singles": 6}]
+            plans.append(p)
+        for var in ("w", "s"):
+            p = Plan(f"sequence:{var}", False)
+            for k in range(LO, HI + 1):
+                ew, es = (k, None) if var == "w" else (None, k)
+                p.steps.append({"ew": ew, "es": es, "path": "df", "max_singles": 3})
+                p.steps.append({"ew": None, "es": None, "path": "df", "max_singles": 1})
+            plans.append(p)
     for i in range(2 if quick else 8):
         p = Plan(f"sequence:random{i}", False)
-        for _ in range(40 if quick else 120):
+        for _ in range(30 if quick else 120):
             ew = rng.choice([None, None, rng.randint(LO, HI), rng.choice([6, 10, 20, 28, 38, -1, 39, 45, 5])])
             es = rng.choice([None, None, rng.randint(LO, HI), rng.choice([6, 10, 15, -1, 5, 16])])
             p.steps.append({"ew": ew, "es": es, "path": rng.choice(("df", "csv")), "max_singles": 1 if quick else 3})
@@ -368,7 +391,7 @@ def run(ctx):
             m = st["model"]
             if isinstance(m, tuple) and m[0] == "CfgOk":
                 w, s = m[1], m[2]
-                lite = not (p.fresh and si == 0)
+                lite = not st.get("rich", p.fresh and si == 0)
                 if st.get("given"):
                     pairs = list(st["given"])
                     st["pairs"] = pairs
@@ -585,8 +608,9 @@ def run(ctx):
                 ecl = "OK"
             key_env = (st["ew"], st["es"])
             documented = in_doc(WVAR, st["ew"]) and in_doc(SVAR, st["es"])
-            if p.fresh and si == 0:
-                fresh_outcome[key_env] = ecl if not (ecl in ("OK", "LoadReject", "Overflow", "OverflowVTL")) else "ACCEPTED"
+            if True:
+                if p.fresh and si == 0:
+                    fresh_outcome[key_env] = ecl if not (ecl in ("OK", "LoadReject", "Overflow", "OverflowVTL")) else "ACCEPTED"
                 rep_steps = [{"env": {k: v for k, v in ((WVAR, st['ew']), (SVAR, st['es'])) if v is not None},
                               "runs": [{"rows": [[0, "1.5", "2.25"]], "ops": ["+"], "path": "df"}]}]
                 if not documented and not (isinstance(ecl, tuple) and ecl[0] == "CfgRejected"):
@@ -604,8 +628,10 @@ def run(ctx):
                     note(kind, f"{WVAR}={st['ew']} {SVAR}={st['es']} are both inside their documented ranges (effective DECIMAL({ew_eff},{es_eff})) but "
                                f"run() fails with {ecl}: {sres['runs'][0].get('msg', '')[:110]} — neither the documented configuration error nor a result",
                          {"steps": rep_steps, "expected": "accepted, or RunTimeError 0-4-1-1", "observed": str(ecl)})
+            st["engine_class"] = ecl if not (ecl in ("OK", "LoadReject", "Overflow", "OverflowVTL")) else "ACCEPTED"
+            if si == 0:   # the first run() of any worker process is a run in a fresh process
+                fresh_outcome.setdefault(key_env, st["engine_class"])
             if not p.fresh:
-                st["engine_class"] = ecl if not (ecl in ("OK", "LoadReject", "Overflow", "OverflowVTL")) else "ACCEPTED"
                 sp = st["spec"]
                 if (mcls == "CfgOk" and isinstance(sp, tuple) and sp[0] == "CfgOk" and tuple(sp[1:]) != tuple(m[1:]) and st["engine_class"] == "ACCEPTED"
                         and sres["runs"] and sres["runs"][-1]["globals"] == [m[1], m[2]] and not any(x[0] == p.name and x[1] == si for x in mismatches)):
@@ -635,9 +661,25 @@ def run(ctx):
                      f"{fresh_outcome[key_env]}, but after a run with {WVAR}={prev and prev['ew']} {SVAR}={prev and prev['es']} the same environment gives "
                      f"{st.get('engine_class')} (set_decimal_config uses the current module globals as defaults and assigns them before validating)",
                      {"steps": envs, "expected": str(fresh_outcome[key_env]), "observed": str(st.get("engine_class"))})
+    # model-free: one environment, one outcome — wherever in whichever process it was run
+    by_env = {}
+    for p in plans:
+        for si, st in enumerate(p.steps):
+            by_env.setdefault((st["ew"], st["es"]), {}).setdefault(str(st.get("engine_class")), (p.name, si))
+    ctx.cov["distinct_environments_run"] = len(by_env)
+    for env_, classes_ in by_env.items():
+        if len(classes_) > 1:
+            (c1, (p1, s1)), (c2, (p2, s2)) = list(classes_.items())[:2]
+            note("sticky-decimal-globals",
+                 f"the outcome of run() with {WVAR}={env_[0]} {SVAR}={env_[1]} depends on what ran before in the process: {c1} in {p1} step {s1}, "
+                 f"{c2} in {p2} step {s2}",
+                 {"steps": [{"env": {k: v for k, v in ((WVAR, env_[0]), (SVAR, env_[1])) if v is not None},
+                             "runs": [{"rows": [[0, "1.5", "2.25"]], "ops": ["+"], "path": "df"}]}], "expected": c1, "observed": c2})
     # precision stickiness that does not change the outcome class is visible through the globals: covered by the model comparison above
 
-    ctx.cov["rule"] = ("exhaustive: every integer -5..45 (and unset) of each variable, fresh process AND in-process sequence; sampled joint settings; "
+    ctx.cov["rule"] = ("exhaustive: every integer -5..45 (and unset) of each variable through run(), each followed by a run with the variables unset in the "
+                       "same process (quick: settings share 16 worker processes + fresh processes for boundary settings; thorough: a fresh process per "
+                       "setting AND one long in-process sequence per variable); sampled joint settings; "
                        "distinct = (configuration, prior globals, outcome) / (DECIMAL(w,s), value pair, operator)")
     ctx.cov["exhaustive"] = True
     ctx.cov["configuration_outcomes_model"] = hist
